@@ -490,7 +490,7 @@ class Built:
         self.assumed = []    # fns whose contract is assumed here (proved in another unit)
 
 
-def _read_template(path, variant, seen=None, assumed=False):
+def _read_template(path, variant, seen=None, assumed=False, only=None):
     """Expands //@include, //@assume and //@if; returns list of (line, file, lineno, assumed).
     `//@assume f` keeps only the //@fn / //@implopen / //@implclose / //@item / //@rename blocks of f and marks
     them assumed: the function is emitted as signature + contract with an external body (proved in another unit)."""
@@ -516,11 +516,16 @@ def _read_template(path, variant, seen=None, assumed=False):
         if not active[-1]:
             continue
         if st.startswith('//@include ') or st.startswith('//@assume '):
-            inc = os.path.normpath(os.path.join(CONTRACTS, st.split(None, 1)[1].strip()))
+            parts = st.split()
+            inc = os.path.normpath(os.path.join(CONTRACTS, parts[1].strip()))
+            only = None
+            for extra in parts[2:]:
+                if extra.startswith('only='):
+                    only = set(extra[5:].split(','))
             if inc in seen:
                 continue
             seen.add(inc)
-            sub = _read_template(inc, variant, seen, assumed or st.startswith('//@assume '))
+            sub = _read_template(inc, variant, seen, assumed or st.startswith('//@assume '), only=only)
             out.extend(sub)
             continue
         out.append((ln, path, no, assumed))
@@ -528,6 +533,7 @@ def _read_template(path, variant, seen=None, assumed=False):
         # keep only directive blocks
         kept = []
         infn = False
+        skipfn = False
         for t in out:
             st = t[0].strip()
             if t[3] is False:
@@ -535,6 +541,17 @@ def _read_template(path, variant, seen=None, assumed=False):
                 continue
             if st.startswith('//@fn '):
                 infn = True
+                if only is not None:
+                    # `//@assume f only=a,b`: keep only the contracts of the named functions (output name: as= if given)
+                    p_, k_ = _parse_args(st[6:])
+                    nm = k_.get('as') or p_[-1]
+                    skipfn = nm not in only
+                else:
+                    skipfn = False
+            if infn and skipfn:
+                if st == '//@end':
+                    infn = False
+                continue
             if infn or st.startswith('//@implopen') or st.startswith('//@implclose') or st.startswith('//@rename'):
                 kept.append(t)
             if st == '//@end':
